@@ -125,6 +125,17 @@ def rand_triples(rng, n, ties_ok=True):
         s = wid(rng.randrange(rows), rng.randrange(cols))
         d = wid(rng.randrange(rows), rng.randrange(cols))
         out.append([s, d, fs(Fraction(rng.randrange(0, 4000), rng.choice([1, 1, 2, 8])))])
+    # zero volumes are triples like any other (a whole column of them still forms a group)
+    z = rng.random()
+    if z < 0.25:
+        for t in out:
+            if rng.random() < 0.3:
+                t[2] = "0"
+    elif z < 0.32 and out:
+        col = out[0][0][1:]
+        for t in out:
+            if t[0][1:] == col or t[1][1:] == col:
+                t[2] = "0"
     return out
 
 
@@ -968,6 +979,14 @@ class XformSuite:
                                     imgs = [wid(r + ar, c + ac) for r in range(ra) for c in range(ca)]
                                     cases.append({"k": "unshift", "A": [ra, ca], "B": [rb, cb], "anchor": anchor,
                                                   "wells": {"shape": "list", "v": [rng.choice(imgs) for _ in range(3)] + imgs[::-1][:2]}})
+                                    # wells of B outside the image of shift (above / left of the anchor, below / right of the area)
+                                    outside = [wid(r, c) for r in range(rb) for c in range(cb) if wid(r, c) not in imgs]
+                                    for w_out in rng.sample(outside, min(3, len(outside))):
+                                        cases.append({"k": "unshift", "A": [ra, ca], "B": [rb, cb], "anchor": anchor,
+                                                      "wells": {"shape": "list", "v": [imgs[0], w_out]}})
+                                    if outside:
+                                        cases.append({"k": "unshift", "A": [ra, ca], "B": [rb, cb], "anchor": anchor,
+                                                      "wells": {"shape": "scalar", "v": outside[0]}})
         nseeds = 4 if tier == "quick" else 40
         for R, C in [(1, 1), (2, 3), (4, 6), (8, 12), (3, 1), (1, 5)] + ([(16, 24)] if tier == "thorough" else []):
             for sd in range(nseeds):
@@ -1063,6 +1082,9 @@ class XformSuite:
             fits = ar < rb and ac < cb and ra + ar <= rb and ca + ac <= cb
             if not fits:
                 return [] if obs.get("err") else ["refuse: shifter accepted a source plate that does not fit"]
+            if k == "unshift" and any(not (ar <= rc(x)[0] < ar + ra and ac <= rc(x)[1] < ac + ca) for x in flat):
+                # shift and unshift are mutually inverse bijections: a well that no well is shifted to has no pre-image
+                return [] if obs.get("err") else [f"inverse: unshift accepted a well outside the shifted area and returned {obs['val'][:3]}"]
             if obs.get("err"):
                 return [f"accept: valid shift raised {obs['exc']}"]
             want = [wid(rc(x)[0] + ar, rc(x)[1] + ac) if k == "shift" else wid(rc(x)[0] - ar, rc(x)[1] - ac) for x in flat]
@@ -1104,7 +1126,8 @@ class SaveSuite:
     coq_module = "CheckPure"
     rule = (
         "record lists of length 0..50 over all record types incl. Latin-1 comments; file absent / shorter / longer before; path as "
-        "str or Path; names with .gwl, upper case, without extension, .gwl elsewhere in the name; save twice; `with` block incl. "
+        "str or Path; names with .gwl, upper case, without extension, .gwl elsewhere in the name; save twice; the same object saving / "
+        "re-entering twice with a foreign write to the file in between; long worklists (999..4100 records); `with` block incl. "
         "exit by exception and __enter__ on a non-empty worklist; non-trivial = at least two records written"
     )
 
@@ -1113,11 +1136,13 @@ class SaveSuite:
         cases = []
         for i in range(160 if tier == "quick" else 4000):
             n = rng.choice([0, 1, 1, 2, 3, 5, 10, 50])
+            if i % 40 == 7:
+                n = rng.choice([999, 1000, 1001, 1002, 1500, 2049, 4100])  # long worklists (abbreviated displays, buffer sizes)
             recs = [rng.choice(RECS[:-1]) for _ in range(n)]
             name = rng.choice(["out.gwl", "out.gwl", "OUT.GWL", "a b.Gwl", "out.gwl", "run 7.gwl", "µ.gwl", "a..gwl", "..gwl",
                                "out.txt", "out", "gwl", "x.gwl.txt", "my.gwl.bak", ".gwl", "a.gwl.", "agwl"])
             cases.append({"recs": recs, "name": name, "pre": rng.choice([None, "short", "long"]), "aspath": rng.random() < 0.5,
-                          "via": rng.choice(["save", "save", "with", "with_exc", "twice", "with_save_other"])})
+                          "via": rng.choice(["save", "save", "with", "with_exc", "twice", "with_save_other", "resave_foreign", "reenter_foreign"])})
         return cases
 
     def run(self, case):
@@ -1146,6 +1171,21 @@ class SaveSuite:
                         wl2.extend(["C;previous"] * 60)
                         wl2.save(arg)
                     wl.save(arg)
+                elif case["via"] == "resave_foreign":
+                    # the same object saves twice to the same path; in between someone else replaced the file
+                    wl = robotools.EvoWorklist()
+                    wl.extend(case["recs"])
+                    wl.save(arg)
+                    p.write_bytes(b"C;written by someone else\r\nW1;" * (1 + len(case["recs"]) % 3))
+                    wl.save(arg)
+                elif case["via"] == "reenter_foreign":
+                    wl = robotools.FluentWorklist(arg)
+                    with wl as w:
+                        w.extend(case["recs"])
+                    p.write_bytes(b"C;written by someone else\r\nW1;" * (1 + len(case["recs"]) % 3))
+                    with wl as w:
+                        entered_empty = len(w) == 0
+                        w.extend(case["recs"])
                 else:
                     wl = robotools.FluentWorklist(arg)
                     wl.append("C;stale")
@@ -1171,7 +1211,8 @@ class SaveSuite:
             return {"other_content": other_content, "err": errcode(exc), "exc": type(exc).__name__ if exc else None, "content": content,
                     "shown": str(wl), "entered_empty": entered_empty,
                     "readback": content.split("\r\n") if content is not None else None,
-                    "filepath_ok": (wl.filepath == p) if case["via"].startswith("with") else None}
+                    "filepath_ok": (wl.filepath == p) if case["via"].startswith("with") else None,
+                    "same_as_repr": str(wl) == repr(wl)}
         finally:
             shutil.rmtree(d, ignore_errors=True)
 
